@@ -478,7 +478,8 @@ func (ex *Executor) timeNow(st *State) *smt.Term {
 	v := smt.Var(fmt.Sprintf("now%d", len(st.ND)), smt.Int)
 	st.ND = append(st.ND[:len(st.ND):len(st.ND)], NDRec{Kind: "now", T: v})
 	if prev != nil {
-		st.addPC(smt.Le(prev, v))
+		// A-clock-strict: successive readings of the clock differ (nanosecond resolution)
+		st.addPC(smt.Lt(prev, v))
 	} else {
 		st.addPC(smt.Lt(smt.IntC(0), v))
 	}
